@@ -1,6 +1,7 @@
 package vk
 
 import (
+	"encoding/json"
 	"fmt"
 	"os"
 	"os/exec"
@@ -180,7 +181,47 @@ func RaceGuard(prop string, scope []string) {
 		}
 	}
 	reports := ReadRaceLogs(prefix)
-	if len(reports) == 0 {
+	// second pass with the light vsync variant (see overlay/vsync/light.go): the same command
+	// built without the lock monitor, whose own synchronisation hides races from the detector.
+	// It writes evidence/<prop>.light.json, which is merged into the evidence below.
+	lightRC := 0
+	var lightCov map[string]any
+	lightViol := 0
+	if lb := os.Getenv("VERIF_LIGHT_BIN"); lb != "" && rc != 2 && os.Getenv("VERIF_REPLAY") == "" {
+		prefix2 := filepath.Join(scratch, "racelog-light-"+prop)
+		cmd2 := exec.Command(lb, os.Args[1:]...)
+		cmd2.Env = append(os.Environ(), "VERIF_RACE_CHILD=1", "VERIF_LIGHT=1")
+		cmd2.Env = append(cmd2.Env, RaceEnv(prefix2)...)
+		cmd2.Stdout = os.Stdout
+		cmd2.Stderr = os.Stderr
+		if err := cmd2.Run(); err != nil {
+			if ee, ok := err.(*exec.ExitError); ok {
+				lightRC = ee.ExitCode()
+			} else {
+				lightRC = 2
+			}
+		}
+		reports = append(reports, ReadRaceLogs(prefix2)...)
+		verifDir := os.Getenv("VERIF_DIR")
+		lp := filepath.Join(verifDir, "evidence", prop+".light.json")
+		if b, err := os.ReadFile(lp); err == nil {
+			var ev map[string]any
+			if json.Unmarshal(b, &ev) == nil {
+				lightCov, _ = ev["coverage"].(map[string]any)
+				if v, ok := ev["violations"].(float64); ok {
+					lightViol = int(v)
+				}
+			}
+			os.Remove(lp)
+		}
+		if lightRC == 2 && rc == 0 {
+			rc = 2
+		}
+		if lightRC == 1 {
+			rc = 1
+		}
+	}
+	if len(reports) == 0 && lightCov == nil {
 		os.Exit(rc)
 	}
 	// evaluate the reports with a fresh Run that only patches the evidence
@@ -198,7 +239,13 @@ func RaceGuard(prop string, scope []string) {
 			r.Violation(k, "data race reported by the Go race detector", map[string]any{"report": rep.Text})
 		}
 	}
-	PatchEvidence(r, map[string]any{"race_reports": len(reports), "race_reports_out_of_scope": other, "race_report_keys": keysOf(seen)}, r.Violations())
+	extra := map[string]any{"race_reports": len(reports), "race_reports_out_of_scope": other, "race_report_keys": keysOf(seen)}
+	if lightCov != nil {
+		delete(lightCov, "samples")
+		delete(lightCov, "rule")
+		extra["light_vsync_pass"] = lightCov
+	}
+	PatchEvidence(r, extra, r.Violations()+lightViol)
 	if r.Violations() > 0 {
 		os.Exit(1)
 	}
